@@ -251,12 +251,73 @@ func drive(chk *checks.Check, tier string, seed int64) int {
 			Detail: "the process running the code under test died or hung on this case: " + firstLines(o2.stderr, 6)})
 		results = append(results, &report.Result{Worker: k, Capped: true, CapReasons: []string{"worker " + strconv.Itoa(k) + " died: shard not completed"}})
 	}
+	// the free-running -race complement of the schedule checks
+	if rb := os.Getenv("VERIF_RACE_BIN"); rb != "" && chk.RacePass {
+		cmd := exec.Command(rb, chk.Meta.Property, tier)
+		cmd.Env = append(os.Environ(), "GORACE=halt_on_error=0 exitcode=66 history_size=3")
+		var so, se bytes.Buffer
+		cmd.Stdout, cmd.Stderr = &so, &se
+		rerr := cmd.Run()
+		rr := &report.Result{Worker: n, Counters: map[string]int64{}, Skipped: map[string]int64{}, Bounds: map[string]any{}}
+		for _, line := range strings.Split(so.String(), "\n") {
+			var k int64
+			if _, e := fmt.Sscanf(line, "RACE-RUNS %d", &k); e == nil {
+				rr.Counters["race_pass_runs"] = k
+			}
+			if strings.HasPrefix(line, "RACE-TRACE-MISMATCH") {
+				rr.Violations = append(rr.Violations, report.Violation{Property: chk.Meta.Property, Clause: "free-running-trace", Witness: headTail(line, 200, 0), Detail: line, Tier: tier, Part: "race"})
+			}
+			if strings.HasPrefix(line, "RACE-HARNESS-ERROR") {
+				rr.HarnessErrors = append(rr.HarnessErrors, line)
+			}
+		}
+		stderr := se.String()
+		switch {
+		case strings.Contains(stderr, "WARNING: DATA RACE"):
+			rr.Violations = append(rr.Violations, report.Violation{Property: chk.Meta.Property, Clause: "data-race", Witness: raceWitness(stderr), Tier: tier, Part: "race",
+				Detail: "the race detector reported a data race in the free-running pass: " + headTail(stderr, 2500, 0)})
+		case strings.Contains(stderr, "fatal error: concurrent map"):
+			rr.Violations = append(rr.Violations, report.Violation{Property: chk.Meta.Property, Clause: "data-race", Witness: "concurrent map access", Tier: tier, Part: "race", Detail: headTail(stderr, 1500, 0)})
+		case rerr != nil:
+			rr.HarnessErrors = append(rr.HarnessErrors, fmt.Sprintf("the -race pass failed: %v: %s", rerr, headTail(stderr, 800, 400)))
+		}
+		results = append(results, rr)
+	}
 	m := report.Merge(results)
 	m.Violations = append(m.Violations, crashes...)
 	m.HarnessErrors = append(m.HarnessErrors, harness...)
 	m.Bounds["workers"] = n
 	m.Bounds["budget_s"] = budget(chk, tier).Seconds()
 	return report.Conclude(rt, chk.Meta, tier, seed, m, time.Since(start).Seconds())
+}
+
+// raceWitness names the two accesses of the first race report (function names), so that the same
+// race is recognised across runs.
+func raceWitness(stderr string) string {
+	var fns []string
+	lines := strings.Split(stderr, "\n")
+	for i, l := range lines {
+		if strings.HasPrefix(l, "Write at") || strings.HasPrefix(l, "Read at") || strings.HasPrefix(l, "Previous write at") || strings.HasPrefix(l, "Previous read at") {
+			// the first frame outside the Go runtime names the access
+			fn := ""
+			for j := i + 1; j < len(lines) && strings.TrimSpace(lines[j]) != ""; j++ {
+				f := strings.TrimSpace(lines[j])
+				if strings.HasPrefix(f, "/") || strings.HasPrefix(f, "runtime.") {
+					continue
+				}
+				if k := strings.Index(f, "("); k > 0 {
+					f = f[:k]
+				}
+				fn = f
+				break
+			}
+			fns = append(fns, strings.ToLower(strings.Join(strings.Fields(l)[:2], " "))+" in "+fn)
+			if len(fns) == 2 {
+				break
+			}
+		}
+	}
+	return "race: " + strings.Join(fns, " / ")
 }
 
 func lastLine(path string) string {
